@@ -94,6 +94,9 @@ def req_of(fdb: dict, rawf: dict, fld) -> dict:
     return blank("free")
 
 
+SWEPT: set = set()
+
+
 def variations(fdb: dict, rawf: dict, rng: random.Random, tier: str):
     """(class, attribute, value) single-field variations"""
     t, n = fdb["type"], fdb["len"]
@@ -130,7 +133,9 @@ def variations(fdb: dict, rawf: dict, rng: random.Random, tier: str):
             out.append(("absent", "both", None))
         if t == "LOOKUP":
             names = list(dict.fromkeys(LOOKUPS.get(fdb["lookup"], {}).values()))
-            pick = names if (tier == "thorough" or len(names) <= 10) else names[:4] + names[-3:] + rng.sample(names[4:-3], 3)
+            first_use = fdb["lookup"] not in SWEPT        # the first field that uses a table asks for every name in it
+            SWEPT.add(fdb["lookup"])
+            pick = names if (tier == "thorough" or len(names) <= 10 or first_use) else names[:4] + names[-3:] + rng.sample(names[4:-3], 3)
             out += [(f"name:{nm}", "name", nm) for nm in pick] + [("name:unknown", "name", "no such entry")]
     elif t == "RESERVED":
         full = (1 << n) - 1
@@ -164,6 +169,7 @@ def bind(chk: Check, tier: str, seed: int):
     wd = workdir("C09")
     db, raw = load_db(wd)
     LOOKUPS.clear()
+    SWEPT.clear()
     LOOKUPS.update(db["lookups"])
     raw_by_id = {p["Id"]: p for p in raw["PGNs"]}
     rng = random.Random(seed)
